@@ -41,6 +41,7 @@ def c01(tier, seed):
             jobs.append(job("HSqliTotal", [n], safety=True, witness_every=5))
         else:
             jobs += part_jobs("HSqliTotal", [n], SQL_PARTS, safety=True, witness_every=200 if n >= 3 else 20)
+    jobs.append(job("HSqliTotal", [2], safety=True, paranoid=True))  # every byte-domain verdict of this job is re-decided by z3
     c.run_group("W-api", BASE + H("h_api.go"), jobs)
     jobs = []
     for f in range(5):
@@ -53,6 +54,8 @@ def c01(tier, seed):
             for pre in ((0,) if n == NT and tier == "quick" else (0, 1, 2, 3)):
                 jobs.append(job("HSqlOpener", [w, n, pre], safety=True, witness_every=50))
     c.run_group("T-openers-api", BASE + H("h_api.go"), jobs, expect_labels=["done"])
+    c.run_group("T-attack-templates", SQLT, rel_jobs(tier, seed, "HSqlAttackTotal", "HSqlNearTotal", qstep=48), expect_labels=["done"])
+    c.run_group("T-class-sequences", BASE + H("h_sqli.go", "h_sql_tpl.go", "h_sql_seq.go"), seq_jobs("HSqlSeqTotal", tier, seed, frac_quick=2, safety=True), expect_labels=["done"])
     return c.finish("model_checking", "every feasible path of IsSQLi over every byte string of length <= %d; first scan step in 5 modes for inputs <= %d; 15 kinds of long tokens (29-34 bytes) with a free byte before or after; 41 construct openers x 4 context prefixes + <= %d free bytes; each path's index/slice/nil/division/step-budget obligations decided by z3 or the byte-domain procedure" % (N, NU, NT),
                     {"W_free_bytes": N, "U_free_bytes": NU, "opener_tail_free_bytes": NT})
 
@@ -64,6 +67,7 @@ def c02(tier, seed):
     for ctx in range(5):
         for n in range(0, N + 1):
             jobs.append(job("HXssCtxTotal", [n, ctx], safety=True, witness_every=20))
+    jobs.append(job("HXssCtxTotal", [3, 1], safety=True, paranoid=True))
     c.run_group("W", BASE + H("h_total.go"), jobs)
     c.run_group("W-api", BASE + H("h_api.go"), wjobs("HXssTotal", N - 1, partition=XSS_PARTS, split_from=4, safety=True))
     XU = BASE + H("h_xss_units.go")
@@ -140,6 +144,26 @@ def sql_grammar_all():
     return [(c, a, sp, t) for c in range(10) for a in range(52) for sp in range(4) for t in range(9)], None
 
 
+SQLSEQ = None
+
+
+def seq_jobs(entry, tier, seed, kmax_quick=3, frac_quick=1, frac_thorough4=8, block=250, **kw):
+    """token-class sequences: all 26^k sequences for k <= 3 (a 1/frac slice of the blocks in quick), a slice of k = 4 in thorough"""
+    jobs = []
+    for k in range(1, (kmax_quick if tier == "quick" else 4) + 1):
+        total = 26 ** k
+        blocks = [(lo, min(lo + block, total) - 1) for lo in range(0, total, block)]
+        frac = 1
+        if tier == "quick" and k == kmax_quick:
+            frac = frac_quick
+        if k == 4:
+            frac = frac_thorough4
+        for i, (lo, hi) in enumerate(blocks):
+            if i % frac == seed % frac:
+                jobs.append(job(entry, [k, lo, hi], witness_every=400, max_witness=2, **kw))
+    return jobs
+
+
 def c08(tier, seed):
     c = Check("C08", tier, seed)
     N = 3 if tier == "quick" else 4
@@ -149,7 +173,8 @@ def c08(tier, seed):
         jobs += wjobs("HFpLen", N, extra=[f], safety=True)
     c.run_group("W-fp-len", SQLI, jobs, expect_labels=["checked"])
     c.run_group("T-relations", SQLT, rel_jobs(tier, seed), expect_labels=["checked"])
-    return c.finish("model_checking", "verdict/fingerprint relation of IsSQLi for all inputs <= %d bytes; per-context fingerprint length and alphabet for all inputs <= %d bytes in 5 modes" % (N, N), {"W_free_bytes": N})
+    c.run_group("T-class-sequences", BASE + H("h_sqli.go", "h_sql_tpl.go", "h_sql_seq.go"), seq_jobs("HSqlSeqRel", tier, seed, safety=True), expect_labels=["checked"])
+    return c.finish("model_checking", "every sequence of <= 3 (thorough: a slice of 4) items over 26 token-class representatives; verdict/fingerprint relation of IsSQLi for all inputs <= %d bytes; per-context fingerprint length and alphabet for all inputs <= %d bytes in 5 modes" % (N, N), {"W_free_bytes": N})
 
 
 def c12(tier, seed):
@@ -169,6 +194,7 @@ def c12(tier, seed):
                 for my in range(2):
                     jobs.append(job("HVirtualQuoteT", [i, sep, q, my], safety=True, witness_every=6, max_witness=1))
     c.run_group("T-virtual-quote", SQLT, jobs, expect_labels=["checked"])
+    c.run_group("T-class-sequences", BASE + H("h_sqli.go", "h_sql_tpl.go", "h_sql_seq.go"), seq_jobs("HSqlSeqRel", tier, seed, safety=True), expect_labels=["checked"])
     return c.finish("model_checking", "IsSQLi vs the documented cascade evaluated on fresh state, and inside-quote vs quote+input as-is, for all inputs <= %d bytes" % N, {"W_free_bytes": N})
 
 
@@ -307,6 +333,7 @@ def c06(tier, seed):
     jobs = []
     for f in range(5):
         jobs += wjobs("HSpecLex", NU, extra=[f], split_from=4, wbig=300)
+    jobs.append(job("HSpecLex", [3, 0], paranoid=True))
     c.run_group("U-first-token", SPECSQL, jobs, expect_labels=["checked"])
     jobs = []
     for f in range(5):
@@ -315,6 +342,7 @@ def c06(tier, seed):
     c.run_group("W-stream-fold", SPECSQL, jobs, expect_labels=["checked"])
     c.run_group("W-api", SPECSQL, wjobs("HSpecIsSQLi", NW), expect_labels=["checked"])
     c.run_group("T-templates", SPECSQL + H("h_sql_tpl.go", "h_spec_sqli_tpl.go"), rel_jobs(tier, seed, "HSpecSqlT", "HSpecSqlNearT", qstep=67, safety=False), expect_labels=["checked"])
+    c.run_group("T-class-sequences", SPECSQL + H("h_sql_tpl.go", "h_spec_sqli_tpl.go", "h_sql_seq.go"), seq_jobs("HSpecSqlSeq", tier, seed, frac_quick=3, frac_thorough4=32), expect_labels=["checked"])
     c.assumptions.append("text that reaches a Unicode case-folding call is ASCII (other paths are closed as excluded and counted)")
     return c.finish("model_checking", "implementation vs independently written reference (spec/sqltok.go, spec/sqlfold.go) on the same symbolic input: first token in 5 modes for all inputs <= %d bytes; token stream, folded tokens, fingerprint, context verdict in 5 modes and IsSQLi for all inputs <= %d bytes" % (NU, NW),
                     {"U_free_bytes": NU, "W_free_bytes": NW, "modes": 5})
@@ -378,6 +406,7 @@ def c07(tier, seed):
     for ctx in range(5):
         jobs += wjobs("HSpecH5", NW + 1, extra=[ctx], partition=XSS_PARTS, split_from=5)
         jobs += wjobs("HSpecXss", NW, extra=[ctx], partition=XSS_PARTS, split_from=4)
+    jobs.append(job("HSpecXss", [3, 1], paranoid=True))
     c.run_group("W-tokens-verdict", SPECXSS, jobs, expect_labels=["checked"])
     c.run_group("W-api", SPECXSS, wjobs("HSpecIsXSS", NX, partition=XSS_PARTS, split_from=4), expect_labels=["checked"])
     jobs = []
@@ -557,7 +586,7 @@ def c09(tier, seed):
             api = "sqli" if (r["entry"] == "HRepeatSqli" or (r["entry"] == "HRepeatFree" and r["args"][2] == 0)) else "xss"
             if sum(1 for t in timing_log if t["native"].get("ratio", 0) >= 7.0) >= 2 or len(timing_log) >= 6:
                 return None  # at most a few native timing runs per check (each runs the quadratic input at 64 kB+)
-            t = c.nat.timing(obs.get("pre", ""), obs["unit"], api)
+            t = c.nat.timing(obs.get("pre", ""), obs["unit"], api, obs.get("post", ""))
             timing_log.append({"entry": r["entry"], "args": r["args"], "input": v["text"], "native": t})
             return t.get("ratio", 0) >= 7.0
         return engine_to_native_ok(v, nat_res)
